@@ -20,7 +20,8 @@ EXTENDS Integers, FiniteSets, TLC
 Signers == {"F", "H", "E"}
 Signed == {"U", "Pc", "Pd"}
 FieldMuts == {"nonce", "price", "gas", "to", "value", "data"}
-SigMuts == {"r+1", "s+1", "vflip", "highS", "r=0", "s=0", "r=N", "s=N", "s=max", "vbig"}
+OutOfRange == {"r=0", "s=0", "r=N", "s=N", "s=max", "vbig", "v+256k", "s-wide", "highS-wide", "r-wide"}     \* values outside [1, N-1] / V beyond its byte
+SigMuts == {"r+1", "s+1", "vflip", "highS"} \cup OutOfRange
 Muts == {"none", "chainid"} \cup FieldMuts \cup SigMuts
 Outcomes == {"same", "other", "error"}
 
@@ -29,7 +30,7 @@ Allowed(c) ==
   LET rightSigner == (c.signed = "U" /\ c.signer \in {"F", "H", "E"}) \/ (c.signed = "Pc" /\ c.signer = "E") IN
   IF ~rightSigner THEN {"error"}                       \* "a replay-protected transaction is attributed only under its own chain id"
   ELSE IF c.mut = "none" THEN {"same"}                 \* "attributed to exactly that key's address"
-  ELSE IF c.mut \in {"r=0", "s=0", "r=N", "s=N", "s=max", "vbig"} THEN {"error"}   \* "out-of-range signatures are rejected"
+  ELSE IF c.mut \in OutOfRange THEN {"error"}   \* "out-of-range signatures are rejected"
   ELSE IF c.mut = "highS" THEN (IF c.signer = "F" THEN {"same", "error"} ELSE {"error"})   \* "malleable (high-S) ... rejected" (Frontier rules predate it)
   ELSE IF c.mut = "chainid" THEN {"error", "other"}
   ELSE {"error", "other"}                              \* "changing any signed field or signature component either makes recovery fail or attributes it to a different address"
@@ -40,7 +41,7 @@ CONSTANT E155LowS
 Recover(sameHash, sigIntact) == IF sameHash /\ sigIntact THEN {"same"} ELSE {"other", "error"}
 \* recoverPlain: V must be 27/28 after normalisation, R,S in [1,N-1], and (homestead) S <= N/2
 RecoverPlain(c, homestead, vOK) ==
-  IF ~vOK \/ c.mut \in {"r=0", "s=0", "r=N", "s=N", "s=max", "vbig"} THEN {"error"}
+  IF ~vOK \/ c.mut \in OutOfRange THEN {"error"}
   ELSE IF c.mut = "highS" THEN (IF homestead THEN {"error"} ELSE {"same"})      \* (r, N-s, v^1) is a valid signature of the same key
   ELSE Recover(c.mut \notin (FieldMuts \cup {"chainid"}), c.mut \notin {"r+1", "s+1", "vflip"})
 CodeVerdict(c) ==
